@@ -1,6 +1,6 @@
 SPECIFICATION Spec
 CONSTANTS
-  Catalogue <- CatQuick
+  Catalogue <- CatFull
   DiskC = "A"
   DiskR = "A"
   Feat = {"msg", "poll", "stop"}
